@@ -13,7 +13,7 @@ func init() {
 	props["C12"] = &propDef{
 		Level:  "model_checking",
 		Rule:   "reference model = consecutive-unhealthy counter of the current term (reset by a healthy result and by a new term); every health-result sequence over {ok,bad,slow} of length <= L (and over {ok,bad,healthy-after-150ms} of length <= 4/5) x MaxConsecutiveFailures in {0 (=>3),1,2,3,4} is executed on the real election (one instance, virtual time, continued across terms until re-election) and compared tick by tick: demotion by the health mechanism exactly when the reference count reaches the threshold, OnDemote ran, each Check context expires within 100ms, re-election afterwards. states = distinct reference states (term, count, position, leading), transitions = health ticks executed on the implementation, traces_validated_against_impl = sequences executed",
-		Assume: []string{"single instance, K1 timing (H=200ms, TTL=600ms)", "a slow check returns false at its context deadline"},
+		Assume: []string{"single instance, K1 timing (H=200ms, TTL=600ms); sequences up to length 3 also with H=500ms/TTL=1.5s and H=4s/TTL=12s", "a slow check returns false at its context deadline"},
 		Plan:   c12Plan,
 		After:  c12After,
 	}
@@ -86,6 +86,23 @@ func c12Plan(tier string) []PlanItem {
 		}
 		for _, thr := range []int{1, 2, 3} {
 			items = append(items, PlanItem{c12Scenario(seq, thr), 0})
+		}
+	}
+	// other heartbeat intervals (the 100 ms budget of a check does not depend on H): short
+	// sequences with H = 500 ms and H = 4 s
+	for _, kk := range []struct {
+		n string
+		k kfn
+	}{{"K5", K5}, {"K3", K3}} {
+		for _, seq := range c12Seqs(3) {
+			for _, thr := range []int{1, 2, 3} {
+				s := c12Scenario(seq, thr)
+				kk.k(s)
+				s.Name += "/" + kk.n
+				s.Horizon = time.Duration(len(seq)+2)*s.H + 3*(s.TTL+900*ms)
+				s.LatencyBound = s.H/2 - ms
+				items = append(items, PlanItem{s, 0})
+			}
 		}
 	}
 	// the same sequences with one transient failure of a heartbeat refresh, injected at
